@@ -95,7 +95,7 @@ impl Prop for C09 {
     }
 
     fn fuzz_targets(&self) -> Vec<(&'static str, u64)> {
-        vec![("fuzz_writer", 40_000)]
+        vec![("fuzz_writer", 15_000)]
     }
 
     fn extra(&self, tier: Tier, seed: u64, _ctx: &crate::runner::ExtraCtx) -> crate::runner::ExtraOut {
